@@ -169,7 +169,11 @@ func (pc *PodCache) onEvent(old, pod *v1.Pod, ev model.Event) error {
 		}
 	case model.EventUpdate:
 		if !shouldPodBeInEndpoints(pod) || !IsPodReady(pod) {
-			// delete only if this pod was in the cache
+			// delete only if this pod was in the cache; it is cached under the IP it had when it was added,
+			// which the same event may have changed
+			if cached := pc.getIPByPod(key); cached != "" {
+				ip = cached
+			}
 			if !pc.deleteIP(ip, key) {
 				return nil
 			}
@@ -181,8 +185,11 @@ func (pc *PodCache) onEvent(old, pod *v1.Pod, ev model.Event) error {
 			return nil
 		}
 	case model.EventDelete:
-		// delete only if this pod was in the cache,
+		// delete only if this pod was in the cache (under the IP it had when it was added),
 		// in most case it has already been deleted in `UPDATE` with `DeletionTimestamp` set.
+		if cached := pc.getIPByPod(key); cached != "" {
+			ip = cached
+		}
 		if !pc.deleteIP(ip, key) {
 			return nil
 		}
